@@ -122,6 +122,36 @@ def run(ctx, res):
             os.environ.pop('HOME', None)
         else:
             os.environ['HOME'] = saved_home
+    # ---- history: the same RELATIVE cart name loaded from two working directories in one process (a root worked out for the first
+    # must not be reused for the second)
+    saved_cwd = os.getcwd()
+    try:
+        da, db = os.path.join(base, 'proj_a'), os.path.join(base, 'proj_b')
+        I.write(os.path.join(da, 'inc.lua'), b'in_a=1\n')
+        I.write(os.path.join(db, 'inc.lua'), b'in_b=1\n')
+        I.write(os.path.join(da, 'only_a.lua'), b'only_a=1\n')
+        for d, inc in ((da, b'inc.lua'), (db, b'../proj_a/only_a.lua'), (db, b'inc.lua'), (da, b'../proj_b/inc.lua')):
+            I.write(os.path.join(d, 'game.p8'), template.replace(b'x=1\n', b'#include ' + inc + b'\nx=1\n'))
+        for d, inc in ((da, b'inc.lua'), (db, b'../proj_a/only_a.lua'), (da, b'../proj_b/inc.lua'), (db, b'inc.lua')):
+            I.write(os.path.join(d, 'game.p8'), template.replace(b'x=1\n', b'#include ' + inc + b'\nx=1\n'))
+            os.chdir(d)
+            with I.Recorder() as rec:
+                try:
+                    gfile.from_file('game.p8')
+                    status = 'ok'
+                except Exception as e:
+                    status = 'err ' + U.exc_kind(e)
+            res.evaluations += 1
+            res.count('include-relative-name-after-chdir:' + status)
+            res.nontrivial.add(('inc-chdir', d, inc))
+            bad = [t for t in rec.touched() if not I.under(t, d)]
+            if bad or (inc.startswith(b'../') and status == 'ok'):
+                res.fail('C12:include-chdir:%s:%s' % (os.path.basename(d), inc.decode()),
+                         'after loading game.p8 in another directory, #include %s from %s/game.p8 (relative name) %s' % (
+                             inc.decode(), os.path.basename(d), 'accessed %s outside its directory' % bad[0] if bad else 'was accepted'),
+                         {'history': 'load proj_a/game.p8 as "game.p8" with cwd=proj_a, chdir proj_b, load "game.p8"', 'include': inc.decode()})
+    finally:
+        os.chdir(saved_cwd)
     # ---- require()
     main = os.path.join(root, 'main.lua')
     out = os.path.join(base, 'out', 'o.p8')
